@@ -21,8 +21,10 @@ PROP = dict(
                "string; hence (lemma_decode_encode_roundtrip, lemma_decoded_is_encodable) decode(b) == Ok(e) ==> e.encode_slow() "
                "== b. decode_dangling splits the input into the container's own bytes and the dangling rest. Error reasons are "
                "exact for consume_*, consume_header_section_size (all four), TypesSection::decode/validate, EofBody::decode (all "
-               "three) and for the fixed-offset header fields (magic, version, types kind, types size % 4, code kind); inputs "
-               "shorter than 15 bytes are rejected. PANIC-FREEDOM of Eof::decode / decode_dangling on every input: every slice "
+               "three; EofBody::decode accepts EXACTLY when the length is within [header+body-data_size, header+body] and every "
+               "types entry is valid) and for the fixed-offset header fields (magic, version, types kind, types size % 4, code "
+               "kind); inputs shorter than 15 bytes are rejected; EofHeader::decode and decode_dangling never report a body-length "
+               "error. PANIC-FREEDOM of Eof::decode / decode_dangling on every input: every slice "
                "index, range, Bytes::slice, split_off, expect/unwrap and every +,* on usize in the extracted bodies is a discharged "
                "obligation (decoders have no precondition; EofBody::decode alone requires header_wf of the header it is given, "
                "which EofHeader::decode establishes). Decoders take shared borrows only: an Err has no effect to leave behind.",
@@ -30,7 +32,7 @@ PROP = dict(
                "(purity of safe Rust, no contract adds information) and 'every container that validation accepts executes without "
                "reaching an interpreter panic' (interpreter/analysis.rs validate_eof_* vs callf/jumpf/eofcreate/return_contract): a "
                "whole-program property over validate_eof_codes' abstract interpretation and the interpreter loop. NOT PROVED in the "
-               "codec half: completeness of EofHeader::decode beyond the fixed-offset fields (that EVERY byte string of the form "
+               "codec half: completeness of EofHeader::decode (hence of Eof::decode / decode_dangling) beyond the fixed-offset fields (that EVERY byte string of the form "
                "header_bytes(h) ++ rest with header_wf(h) is accepted) -- only soundness (accepted ==> of that form), the exact "
                "error of each helper, and rejection below 15 bytes; Eof::data_slice / EofBody::into_eof / Eof::default / "
                "Eof::new (iterator collect/sum, closures: outside this Verus) are not under contract; into_eof's `as u16` "
@@ -38,7 +40,7 @@ PROP = dict(
                "u16::from_be_bytes / .to_be_bytes() re-pathed to two trusted wrappers (core's signature has an unnameable "
                "array-length constant); ghost iterator names and `ensures` on the two `|x| *x as usize` closures spliced into "
                "for-headers; EofBody::decode emitted as a free function (this Verus loses closure specs inside extension-trait "
-               "impls); unit runs with --rlimit 30 (EofHeader::decode needs 26M of the default 30M).",
+               "impls); unit runs with --rlimit 30 (EofHeader::decode needs 16-31M rlimit units depending on the z3 seed; the default cap is 30M).",
     technique="Verus contracts on the extracted EOF codec over sequence views; round trip as decode-soundness + encode-exactness",
     trusted=COMMON_TRUST + [
         "units/prelude/bytesview.rs: alloy-primitives 0.8.15 / bytes 1.7.1 Bytes contracts (Deref chain, len, slice(range) with "
